@@ -38,6 +38,10 @@ fn main() {
     fcheck::probe();
     return;
   }
+  if args[1] == "fcxprobe" {
+    fcx::probe(&args[2..]);
+    return;
+  }
   if args[1] == "fcdump" {
     fcheck::dump(&args[2..]);
     return;
